@@ -642,7 +642,7 @@ fn views2(x: &[u8]) -> String {
     };
     let one = |h: &v2::Header| {
         format!(
-            "length={} len={} empty={} fam={} ab={} tb={} asb={} alen={} aempty={} u16={} vc={} fp={} tl={} te={}",
+            "length={} len={} empty={} fam={} ab={} tb={} asb={} alen={} aempty={} u16={} vc={} fp={} tl={} te={} disp={}",
             h.length(),
             h.len(),
             h.is_empty() as u8,
@@ -657,6 +657,7 @@ fn views2(x: &[u8]) -> String {
             h.protocol | h.address_family(),
             h.tlvs().len(),
             h.tlvs().is_empty() as u8,
+            hexs(h.to_string().as_bytes()),
         )
     };
     let borrowed = one(h);
